@@ -250,11 +250,24 @@ class ProbeNode(BaseNode):
         return new_ss, out
 
 
+def _chain_scan(r, n):
+    def body(c, _):
+        return jax.random.split(c)[0], c
+    return jax.lax.scan(body, r, None, length=n)[1]
+
+
+_chain_jit = jax.jit(_chain_scan, static_argnums=1)
+
+
 def rng_chain(rng0, n):
     """chain[0]=rng0, chain[j+1]=split(chain[j])[0]; as tuples of ints."""
-    out = []
     r = jnp.asarray(rng0)
-    for _ in range(n):
-        out.append(tuple(int(v) for v in onp.asarray(r).reshape(-1)))
-        r = jax.random.split(r)[0]
-    return out
+    if n <= 64:
+        out = []
+        for _ in range(n):
+            out.append(tuple(int(v) for v in onp.asarray(r).reshape(-1)))
+            r = jax.random.split(r)[0]
+        return out
+    m = 1 << (n - 1).bit_length()          # few distinct compiled lengths
+    ys = onp.asarray(_chain_jit(r, m)).reshape(m, -1)[:n]
+    return [tuple(int(v) for v in row) for row in ys]
